@@ -157,6 +157,10 @@ def main():
             for kind in ("array", "grid_on", "grid_off"):
                 var = "x" if kind == "array" else "g"
                 url = "http://localhost:8001/" + ("?%s%s" % (var, slab) if pre_on else "")
+                if pre_on and (ci < 2 or rng.random() < 0.25):
+                    # the variable named once more, without a hyperslab: the hyperslab still holds
+                    url += "," + var
+                    stats["url_names_variable_twice"] = stats.get("url_names_variable_twice", 0) + 1
                 try:
                     c = open_url(url, application=spy, output_grid=(kind == "grid_on"))
                 except Exception as e:  # noqa
@@ -213,6 +217,17 @@ def main():
                                 for k in range(rank):
                                     wm = maps[k][pre_np[k]][keep(full[k])]
                                     check_array("grid map %d" % k, res["m%d" % k].data, wm, info)
+                                if rank >= 2 and (ci < 3 or rng.random() < 0.3):
+                                    # a grid narrowed to its array and SOME of its maps (in any order), then sliced: every map
+                                    # that is left is sliced along its own axis
+                                    some = rng.sample(range(rank), rng.randint(1, rank))
+                                    sub = c["g"][("a",) + tuple("m%d" % k for k in some)]
+                                    res3 = sub[key]
+                                    stats["narrowed_grid"] = stats.get("narrowed_grid", 0) + 1
+                                    check_array("array of a narrowed grid", res3["a"].data, want, info)
+                                    for k in some:
+                                        check_array("map m%d of a grid narrowed to maps %r" % (k, some), res3["m%d" % k].data,
+                                                    maps[k][pre_np[k]][keep(full[k])], info)
                     except Exception as e:  # noqa
                         if len(direct) < 12:
                             direct.append(dict(info, law="a non-empty in-domain index can be read", error=repr(e)[:300]))
